@@ -17,7 +17,7 @@ FLAGMAP = {
     "C09": ["Hang"],
     "C10": ["SeqWrong"],
     "C11": ["LenIncreased", "LenWrong", "NotNoAfterEnd", "MaybeOnKnown", "NoDefinitive", "YesZero"],
-    "C12": ["NoDup_fe", "Index_fe", "FoldResult"],
+    "C12": ["NoDup_fe", "Index_fe", "FoldResult", "NoFalseEnd_panic"],
     "C13": ["CloneCount", "SrcDropped", "SrcModified"],
     "C15": ["Leak"],
     "C17": ["Abort", "Panic"],
@@ -272,7 +272,7 @@ PLANS = {
     "C02": dict(e1=CONC_E1 + ["counter_comp", "ticket_comp"], inv=["Inv_C02", "Inv_TicketIsPosition"], bundles=["core"]),
     "C03": dict(e1=CONC_E1 + ["ticket_owner"], inv=["Inv_C03"], bundles=["core"], zst=True),
     "C04": dict(e1=CONC_E1 + ["counter_skipq"], inv=["Inv_C04"], bundles=["core"]),
-    "C05": dict(e1=CONC_E1 + ["counter_skipq", "ticket_skip", "ticket_query", "ticket_revive"], inv=["Inv_C05", "Inv_NoWrap"], bundles=["core"], revive=True),
+    "C05": dict(e1=CONC_E1 + ["counter_skipq", "ticket_skip", "ticket_query", "ticket_revive"], inv=["Inv_C05", "Inv_NoWrap"], bundles=["core", "panic"], revive=True),
     "C06": dict(e1=["counter_skipq", "counter_3t", "counter_range", "ticket_skip", "ticket_3t", "ticket_owner"],
                 inv=["Inv_C06", "Inv_C01", "Inv_C02", "Inv_C04"], bundles=["core"],
                 extra_flags={"skip": ["NoDup", "Index", "Value", "ThreadOrder", "RealTime"]}),
@@ -284,7 +284,7 @@ PLANS = {
                 inv=["Inv_C09_LockFree"], bundles=["core", "freeze"], deadlock=True, revive=True),
     "C10": dict(e1=["counter_owner", "counter_range", "ticket_owner"], inv=["Inv_C10"], bundles=["core"]),
     "C11": dict(e1=["counter_skipq", "counter_owner", "counter_3t", "ticket_skip", "ticket_query", "ticket_owner"], inv=["Inv_C11"], bundles=["core"]),
-    "C12": dict(e1=["counter_comp", "ticket_comp"], inv=["Inv_C12", "Inv_C01", "Inv_C02"], bundles=["core"],
+    "C12": dict(e1=["counter_comp", "ticket_comp"], inv=["Inv_C12", "Inv_C01", "Inv_C02"], bundles=["core", "panic"],
                 extra_flags={"comp": ["NoDup", "NoLoss", "Index", "Hang"]}),
     "C13": dict(e1=[], inv=[], bundles=["twin"], flags=["Differs", "CloneCount", "SrcDropped", "SrcModified"]),
     "C14": dict(e1=[], inv=[], bundles=["lowlevel"], flags=["OwnTwice", "NoDup", "OwnGarbage", "Abort"], static=True),
@@ -295,7 +295,7 @@ PLANS = {
     "C16": dict(e1=[], inv=[], bundles=["boundary"], flags=["Boundary", "BoundaryAfterWrap"]),
     "C17": dict(e1=[], inv=[], bundles=["dual"], flags=["Differs", "Abort", "Panic"]),
     "C18": dict(e1=["ticket_panic1", "ticket_panic2"], inv=["Inv_C01", "Inv_C07_Mutex"], bundles=["panic"], deadlock=True,
-                flags=["Hang", "NoDup", "OwnTwice", "OwnNever", "OwnGarbage", "Mutex"]),
+                flags=["Hang", "NoDup", "OwnTwice", "OwnNever", "OwnGarbage", "Mutex", "NoFalseEnd_panic", "EndSticks"]),
     "C19": dict(e1=["counter_multi"], inv=["Inv_C19", "Inv_C01", "Inv_C02", "Inv_C04", "Inv_C10", "Inv_C11"], bundles=["multi", "core"],
                 flags=["RefIdentity", "SrcModified", "SrcDropped", "CloneStart"],
                 extra_flags={"multi": ["NoDup", "NoLoss", "Index", "Value", "Prefix", "NoFalseEnd", "ThreadOrder", "RealTime", "SeqWrong",
@@ -357,6 +357,14 @@ def decide(pid, tier, seed, t0):
                 path = write_replay(pid, "e1-" + name, {"engine": "E1", "config": r["constants"], "module": module,
                                                           "invariant": "Live_C09", "counterexample": r.get("cex_text", "")})
                 violations.append(("E1 " + name, "liveness", path))
+    # unbounded-in-calls safety of the reservation scheme (Apalache, inductive invariant): run in the thorough tier,
+    # reported from the cache in the quick tier
+    apal = None
+    if pid in ("C01", "C04"):
+        apal = engine.apalache_inductive(run_if_missing=(tier == "thorough"))
+        if apal and not apal["all_discharged"]:
+            path = write_replay(pid, "apalache", apal)
+            violations.append(("Apalache CounterInd", "inductive invariant not discharged", path))
     # ---- E2 -------------------------------------------------------------------------------------
     bundles = []
     relevant = 0
@@ -445,7 +453,7 @@ def decide(pid, tier, seed, t0):
     if violations and not shown:
         print("VIOLATION property=%s replay=%s" % (pid, violations[0][2]))
     write_evidence(pid, tier, seed, t0, e1_results, bundles, relevant, nontrivial, samples, violations, notes, seen_flags,
-                   extra=static_info)
+                   extra=static_info, apal=apal)
     print("%s: %s  (E1: %d configurations, %d states; E2: %d runs; %.0f s)" % (
         pid, "VIOLATED" if violations else "held on everything explored", len(e1_results),
         sum(r["states"] for r in e1_results), relevant, time.time() - t0))
@@ -498,7 +506,7 @@ def static_c14(tier, known, seen_flags):
     return info, vio
 
 
-def write_evidence(pid, tier, seed, t0, e1, bundles, relevant, nontrivial, samples, violations, notes, known_seen, extra=None):
+def write_evidence(pid, tier, seed, t0, e1, bundles, relevant, nontrivial, samples, violations, notes, known_seen, extra=None, apal=None):
     states = sum(r["states"] for r in e1)
     trans = sum(r["transitions"] for r in e1)
     cov = {
@@ -529,6 +537,13 @@ def write_evidence(pid, tier, seed, t0, e1, bundles, relevant, nontrivial, sampl
                               "compiler's verdict (accept / reject with a thread-safety or borrow error) is compared with the "
                               "model's. dynamic clause: sequences of safe public calls incl. the low-level AtomicIter methods "
                               "are executed and the ownership ledger is validated by TraceProps." % (5 if tier == "quick" else 6))
+    if apal:
+        cov["apalache_inductive_invariant"] = apal
+    if PLAN_LEVEL.get(pid) == "translation_validation":
+        # pairs of runs compared by TraceTwin, and how many of them were found to differ (each is a reported violation)
+        cov["programs"] = sum(b.get("matched", {}).get("TraceTwin", [0])[0] for b in bundles) + sum(
+            1 for b in bundles for v in b["viol"].get("TraceTwin", []))
+        cov["disagreements_checked"] = sum(len(b["viol"].get("TraceTwin", [])) for b in bundles)
     if not cov["samples"]:
         cov["samples"] = [{"note": "no run of this bundle is relevant to the property"}]
     if states == 0:
